@@ -1011,3 +1011,72 @@ def id_same(ctx):
     if nq < 8:
         out.append(undecided(R, 'floor:own-queue', 'only %d queue operations of the caller-side runners were recognised (expected at least 8)' % nq))
     return out
+
+
+def id_confined(ctx):
+    """The objects of the blocked caller's hand-shake stay between the two parties.  The condition variable, the ready flag and the result
+    slot that `sync_background` creates are shared with exactly one other party each (the queue's waiter list, the lifetime-erased job, the
+    job's closure); the functions do nothing with them but clone, lock, wait, register, hand them to the job and drop them.  A third holder
+    (a watchdog thread, a guard object with a destructor, a registry, a thread-local) can complete or abandon the hand-shake behind the
+    caller's back: the caller returns while its lifetime-erased job is still queued, or never returns."""
+    F = ctx.F
+    out = []
+    R = 'ID-same'
+    ALLOWED = ('::clone', '::deref', '::deref_mut', '::borrow', '::as_ref', 'Mutex::lock', 'Mutex::try_lock', 'Condvar::wait', 'Condvar::wait_while', 'Condvar::wait_timeout',
+               'Arc::downgrade', 'UnsafeJob::new_with_notification', 'UnsafeJob::new', 'mem::drop', 'Arc::new', 'Mutex::new', 'Condvar::new', 'Arc::strong_count', 'Arc::ptr_eq',
+               'Condvar::notify_one', 'Condvar::notify_all')
+    n = 0
+    for name in ('desync::Scheduler::sync_background', 'desync::Scheduler::sync_drain'):
+        fn = F.fn(name)
+        if not fn:
+            continue
+
+        def is_hs(ty_):
+            t_ = clean_ty(ty_).replace('std::sync::poison::mutex::', '').replace('std::sync::poison::condvar::', '').replace('alloc::sync::', '').replace('&mut ', '').replace('&', '').strip()
+            return t_ in ('Arc<Condvar>', 'Arc<Mutex<bool>>') or (t_.startswith('Arc<Mutex<core::option::Option<') and 'JobQueue' not in t_) or t_.startswith('Arc<(Mutex<core::option::Option<')
+        key = '%s|handshake-objects-confined' % short(name)
+        probs = []
+        seen_any = False
+        job_closures = set()
+        for bb, t in fn.calls():
+            if (t['func'].get('fn') or '').endswith('Job::new'):
+                for a in t['args']:
+                    if a['k'] != 'const' and clean_ty(a['pl']['ty']).startswith('{closure:'):
+                        job_closures.add(clean_ty(a['pl']['ty'])[9:-1])
+        for bb, b in enumerate(fn.blocks):
+            if b['cleanup']:
+                continue
+            for s_ in b['stmts']:
+                if s_['k'] == 'assign' and s_['rv']['k'] == 'agg':
+                    hs = [o for o in s_['rv'].get('ops', []) if o['k'] != 'const' and is_hs(o['pl']['ty'])]
+                    if not hs:
+                        continue
+                    seen_any = True
+                    ak = s_['rv'].get('ak')
+                    if ak == 'closure' and s_['rv'].get('def') not in job_closures:
+                        # a closure that is only called here (a local completion test, a loop body handed to an iterator) is this function's
+                        # own code; one that is stored or sent away (a thread, a box, another job) is a third party
+                        from .rules_locks import cg as _cg
+                        stored = any(s2.kind == 'stored' and s_['rv'].get('def') in s2.targets for s2 in _cg(ctx).sites.get(fn.name, []))
+                        if stored:
+                            probs.append((bb, 'captured by the closure %s, which is stored or sent away and is not the queued job' % short(s_['rv'].get('def') or '?')))
+                    elif ak == 'adt' and not str(s_['rv'].get('adt')).startswith(('core::option::Option', 'core::result::Result')):
+                        probs.append((bb, 'stored in a `%s`' % str(s_['rv'].get('adt')).split('::')[-1]))
+            t = b['term']
+            if t and t['k'] == 'call':
+                nm = t['func'].get('fn') or ''
+                hs = [a for a in t['args'] if a['k'] != 'const' and is_hs(a['pl']['ty'])]
+                if hs:
+                    seen_any = True
+                    if not nm.endswith(ALLOWED) and not nm.endswith(('Vec::push',)):
+                        probs.append((bb, 'passed to %s' % nm.split('::')[-1]))
+        if not seen_any:
+            continue
+        n += 1
+        if probs:
+            out.append(bad(R, key, 'in %s an object of the caller\'s completion hand-shake is %s: somebody other than the caller and its queued job can now complete, abandon or outlive the hand-shake' % (short(name), probs[0][1]), loc=fn.loc(probs[0][0]), fn=fn.name))
+        else:
+            out.append(ok(R, key, 'condition variable, ready flag and result slot are only cloned, locked, waited on, registered with the queue and handed to the queued job', fn=fn.name))
+    if n < 2:
+        out.append(undecided(R, 'floor:confined', 'hand-shake objects of sync_background / sync_drain not recognised'))
+    return out
